@@ -83,7 +83,9 @@ def gen_sdp(rng, tier, seed):
             ids = flat
         queries.append([rng.choice(['search_services', 'get_attributes', 'search_attributes']), pat, ids, rng.randrange(nrec)])
     return {'records': records, 'nclients': rng.choice([1, 1, 2, 3]), 'mtus': [rng.choice([48, 64, 128, 672, 2048, 65535]) for _ in range(3)],
-            'queries': queries, 'profile': rng.choice(PROFILE_NAMES), 'concurrent': rng.random() < 0.7}
+            'queries': queries, 'profile': rng.choice(PROFILE_NAMES), 'concurrent': rng.random() < 0.7,
+            # a query of the same kind that the caller gives up (cancels, as a timeout would) right after the request went out
+            'abandon': [rng.sample(SDP_UUIDS, rng.choice([1, 2])) if rng.random() < 0.3 else None for _ in queries]}
 
 
 def _de(v):
@@ -206,8 +208,18 @@ def run_sdp(case):
                 return [(a.id, bytes(a.value)) for a in got]
             return [[(a.id, bytes(a.value)) for a in lst] for lst in got]
 
-        for q in case['queries']:
+        for qi, q in enumerate(case['queries']):
             tasks = []
+            ab = (case.get('abandon') or [None] * len(case['queries']))[qi]
+            if ab is not None:
+                for cl in clients:
+                    ta = sim.loop.create_task(one(cl, [q[0], ab, q[2], q[3] + 1]))
+                    sim.loop.drive(lambda: cl.pending_request is not None or ta.done(), vt_budget=5.0, step_budget=100_000)
+                    if not ta.done():
+                        ta.cancel()
+                        sim.fault('sdp_query_abandoned_in_flight')
+                # no settling here: the answer to the abandoned request is still on its way when the next query starts
+                sim.loop.drive(lambda: True, 0.0)
             if case['concurrent'] and k > 1:
                 tasks = [(i, sim.loop.create_task(one(cl, q))) for i, cl in enumerate(clients)]
                 sim.probe('sdp_clients_queried_simultaneously')
